@@ -99,7 +99,12 @@ impl TrackerClient {
 
     fn create_url(metainfo: &Metainfo) -> String {
         let info_hash: String = form_urlencoded::byte_serialize(metainfo.info_hash()).collect();
-        metainfo.tracker_url().clone() + "?info_hash=" + info_hash.as_str()
+        // Announce URL can already have some query parameters
+        let separator = match metainfo.tracker_url().contains('?') {
+            true => "&",
+            false => "?",
+        };
+        metainfo.tracker_url().clone() + separator + "info_hash=" + info_hash.as_str()
     }
 }
 
